@@ -79,7 +79,8 @@ def seg(ctx, node):
 
 
 def norm(s: str) -> str:
-    return re.sub(r"\s+", "", s)
+    s = re.sub(r"\s+", "", s)
+    return re.sub(r",([)\]])", r"\1", s)  # trailing commas of multi-line calls / tuples
 
 
 def lookup_const(ctx, node):
@@ -551,6 +552,8 @@ def block(ctx: Ctx, stmts, ret_wrap, ind="  ") -> str:
             raise Untranslatable("raise in a function declared non-raising")
         name = s.exc.func.id if isinstance(s.exc, ast.Call) else ast.unparse(s.exc)
         return ctx.raise_wrap(name)
+    if isinstance(s, ast.AnnAssign) and s.value is None:
+        return block(ctx, rest, ret_wrap, ind)  # bare annotation
     if isinstance(s, (ast.Assign, ast.AnnAssign)):
         if isinstance(s, ast.Assign) and len(s.targets) != 1:
             raise Untranslatable("chained assignment")
@@ -611,7 +614,10 @@ def block(ctx: Ctx, stmts, ret_wrap, ind="  ") -> str:
             + block(ctx, rest, ret_wrap, ind)
         )
     if isinstance(s, ast.If):
-        c = expr(ctx, s.test)
+        if isinstance(s.test, ast.Name) and ctx.typ(s.test.id) == "Option Bool":
+            c = f"({li(s.test.id)} == some true)"  # truthiness of an Optional[bool]
+        else:
+            c = expr(ctx, s.test)
         body_exits, else_exits = always_exits(s.body), always_exits(s.orelse)
         if body_exits and else_exits:
             return (
@@ -819,8 +825,8 @@ def for_loop(ctx, node, rest, ret_wrap, ind):
         if ctx.typ(v) in (None, "List _"):
             raise Untranslatable(f"loop state variable {v} has no concrete type")
     has_exit = any(isinstance(n, (ast.Return, ast.Raise)) for st in body for n in ast.walk(st))
-    # free variables: every function parameter, plus typed locals read in the body
-    params = list(ctx.all_params)
+    # free variables: every function parameter (except those rebound by the loop: they travel as state), plus typed locals read in the body
+    params = [pp for pp in ctx.all_params if pp[0] not in state]
     pnames = {p for p, _ in params}
     used = []
     for st in body + [ast.Expr(value=node.iter)]:
